@@ -24,11 +24,14 @@ R4  part-suffix agreement (T-ROLE): names carrying a first/second marker are
 from __future__ import annotations
 
 import ast
+import copy
 import re
 
 from ..algebra import AlgebraError, normal_form, poly_equal, Rat
-from ..astutil import (ancestors, call_name, calls_in, kwarg, names_in, norm, single_def_value, stmt_of,
-                       stores_to, walk_no_nested)
+from ..astutil import (MUTATING_METHODS, ancestors, assigned_names, call_name, calls_in, conjuncts, eval_pred, guards_of,
+                       is_within,
+                       kwarg, names_in, norm, single_def_value, stmt_of, stores_to, walk_no_nested)
+from ..cfg import CFG
 from ..resolve import resolve_call
 
 GRID = 'gridding/grid.py'
@@ -46,89 +49,843 @@ def marker(name: str) -> str | None:
     return None
 
 
+def _flat(t):
+    if isinstance(t, (ast.Tuple, ast.List)):
+        for e in t.elts:
+            yield from _flat(e)
+    elif isinstance(t, ast.Starred):
+        yield from _flat(t.value)
+    else:
+        yield t
+
+
+def _root_name(e):
+    while isinstance(e, (ast.Subscript, ast.Attribute, ast.Starred)):
+        e = e.value
+    return e.id if isinstance(e, ast.Name) else None
+
+
+# ---------------------------------------------------------------------------------------------------------------
+# Symbolic shape of 1-D arrays built from the array parameters of a function (path-aware).
+#
+# A *sequence* is a list of parts, in order:
+#     ('slice', base, lo, hi)   base[lo:hi]; lo / hi are None (open) or (atom, offset) meaning `atom + offset`
+#     ('whole', base)           the whole array `base`
+#     ('elem', expr, at)        one element whose value is the scalar expression `expr` (evaluated at statement `at`)
+# `base` is an array parameter or the variable of a loop / comprehension over a tuple-of-arrays parameter.
+# A *collection* is "one sequence per member of a tuple-of-arrays parameter":
+#     ('pervar', src, var, expr, at, bound)   for each `var` in parameter `src`: the sequence `expr`
+#     ('empty',)                               no members
+# Every evaluation returns *all alternatives* that can reach the statement it is asked at (reaching definitions
+# on the CFG, both arms of conditional expressions), so a claim about the result holds on every path.
+# Forms that are not understood raise Undecided (never guessed).
+# ---------------------------------------------------------------------------------------------------------------
+
+class Undecided(Exception):
+    pass
+
+
+_NP = ('np.', 'numpy.')
+_CONCAT = {'concatenate', 'hstack'}
+_ASARRAY = {'array', 'asarray', 'asanyarray', 'atleast_1d', 'copy', 'ascontiguousarray'}
+_APPENDS = {'append', 'extend'}
+
+
+def _np_name(c: ast.Call) -> str | None:
+    n = call_name(c)
+    for p in _NP:
+        if n.startswith(p):
+            return n[len(p):]
+    return None
+
+
+class _Subst(ast.NodeTransformer):
+    def __init__(self, mapping):
+        self.mapping = mapping
+
+    def visit_Name(self, n):
+        if isinstance(n.ctx, ast.Load) and n.id in self.mapping:
+            return copy.deepcopy(self.mapping[n.id])
+        return n
+
+
+def _subst(e, mapping):
+    return _Subst(mapping).visit(copy.deepcopy(e))
+
+
+class SeqView:
+    def __init__(self, fi):
+        self.fi = fi
+        self.fn = fi.node
+        self.params = set(fi.params)
+        self.cfg = CFG(fi.node)
+        self.nested = {x.name: x for x in ast.walk(fi.node)
+                       if isinstance(x, (ast.FunctionDef, ast.AsyncFunctionDef)) and x is not fi.node}
+        self.lambdas = {}
+        self._reaching()
+        self.dom = self.cfg.dominators(edge_ok=lambda a, b, lab: lab != 'e')
+
+    # ---- reaching definitions (mutations of a container count as additional, non-killing definitions) ----------
+    @staticmethod
+    def _effects(node):
+        """(kill+gen names, gen-only names) of a CFG node"""
+        s = node.stmt
+        kill, gen = set(), set()
+        if s is None or node.kind not in ('stmt', 'iter', 'with', 'test', 'case', 'match'):
+            return kill, gen
+        heads = []
+        if node.kind == 'iter':
+            kill.update(assigned_names(s.target))
+            heads = [s.iter]
+        elif node.kind == 'with':
+            for it in s.items:
+                if it.optional_vars is not None:
+                    kill.update(assigned_names(it.optional_vars))
+                heads.append(it.context_expr)
+        elif node.kind == 'test':
+            heads = [s.test]
+        elif node.kind == 'stmt':
+            if isinstance(s, ast.Assign):
+                for t in s.targets:
+                    for e in _flat(t):
+                        if isinstance(e, ast.Name):
+                            kill.add(e.id)
+                        else:
+                            r = _root_name(e)
+                            if r:
+                                gen.add(r)
+            elif isinstance(s, ast.AnnAssign):
+                if s.value is not None and isinstance(s.target, ast.Name):
+                    kill.add(s.target.id)
+            elif isinstance(s, ast.AugAssign):
+                r = _root_name(s.target)
+                if r:
+                    gen.add(r)
+            elif isinstance(s, (ast.FunctionDef, ast.AsyncFunctionDef, ast.ClassDef)):
+                kill.add(s.name)
+                return kill, gen
+            elif isinstance(s, ast.Delete):
+                for t in s.targets:
+                    r = _root_name(t)
+                    if r:
+                        gen.add(r)
+            elif isinstance(s, (ast.Import, ast.ImportFrom)):
+                for a in s.names:
+                    kill.add((a.asname or a.name).split('.')[0])
+            heads = [s]
+        for h in heads:
+            for x in walk_no_nested(h):
+                if isinstance(x, ast.NamedExpr):
+                    kill.add(x.target.id)
+                if isinstance(x, ast.Call) and isinstance(x.func, ast.Attribute) and x.func.attr in MUTATING_METHODS:
+                    r = _root_name(x.func.value)
+                    if r:
+                        gen.add(r)
+        return kill, gen - kill
+
+    def _reaching(self):
+        eff = {n.id: self._effects(n) for n in self.cfg.nodes}
+
+        def transfer(node, st):
+            kill, gen = eff[node.id]
+            if not kill and not gen:
+                return st
+            out = {(nm, d) for nm, d in st if nm not in kill}
+            out.update((nm, node.id) for nm in kill | gen)
+            return frozenset(out)
+
+        self.ins, _ = self.cfg.forward(frozenset(), transfer, lambda a, b: a | b, edge_ok=lambda a, b, lab: lab != 'e')
+
+    def _node_of(self, stmt):
+        ids = [i for i in self.cfg.nodes_of(stmt) if self.cfg.nodes[i].kind != 'join' and i in self.ins]
+        if not ids:
+            raise Undecided(f'statement at line {getattr(stmt, "lineno", "?")} is not on any path')
+        return ids
+
+    def defs(self, at, name):
+        """statements whose binding / mutation of `name` can reach statement `at`"""
+        out = []
+        for nid in self._node_of(at):
+            for nm, d in self.ins[nid]:
+                if nm == name and self.cfg.nodes[d].stmt not in out:
+                    out.append(self.cfg.nodes[d].stmt)
+        return sorted(out, key=lambda s: (s.lineno, s.col_offset))
+
+    def is_param(self, at, name):
+        return name in self.params and not self.defs(at, name)
+
+    def returns(self):
+        return sorted((n for n in walk_no_nested(self.fn) if isinstance(n, ast.Return)), key=lambda r: r.lineno)
+
+    # ---- local helpers (nested def / lambda) are opened by substitution -------------------------------------
+    def _callable(self, f, at):
+        """(parameter names, body expression) of a lambda / nested single-expression function named by `f`"""
+        if isinstance(f, ast.Lambda):
+            lam = f
+            return [a.arg for a in lam.args.args], lam.body
+        if isinstance(f, ast.Name) and not self.is_param(at, f.id):
+            ds = self.defs(at, f.id)
+            if len(ds) == 1 and isinstance(ds[0], ast.Assign) and isinstance(ds[0].value, ast.Lambda):
+                return self._callable(ds[0].value, ds[0])
+            if len(ds) == 1 and isinstance(ds[0], (ast.FunctionDef,)):
+                h = ds[0]
+                a = h.args
+                if a.vararg or a.kwarg or a.kwonlyargs or h.decorator_list:
+                    raise Undecided(f'local helper {h.name} has a signature that is not opened')
+                env = {}
+                body = [s for s in h.body if not (isinstance(s, ast.Expr) and isinstance(s.value, ast.Constant))]
+                for s in body[:-1]:
+                    if isinstance(s, ast.Assign) and len(s.targets) == 1 and isinstance(s.targets[0], ast.Name):
+                        env[s.targets[0].id] = _subst(s.value, env)
+                    else:
+                        raise Undecided(f'local helper {h.name} is more than assignments and a return')
+                if not body or not isinstance(body[-1], ast.Return) or body[-1].value is None:
+                    raise Undecided(f'local helper {h.name} does not end in a return of a value')
+                return [x.arg for x in a.posonlyargs + a.args], _subst(body[-1].value, env)
+        return None
+
+    def open_calls(self, e, at, depth=0):
+        """copy of expression `e` with calls of local helpers replaced by their bodies"""
+        if depth > 6:
+            raise Undecided('local helpers nest too deeply')
+        view = self
+
+        class T(ast.NodeTransformer):
+            def visit_Call(self, c):
+                self.generic_visit(c)
+                cb = view._callable(c.func, at) if isinstance(c.func, (ast.Name, ast.Lambda)) else None
+                if cb is None:
+                    return c
+                ps, body = cb
+                if c.keywords and any(k.arg is None or k.arg not in ps for k in c.keywords) or len(c.args) > len(ps) \
+                        or any(isinstance(a, ast.Starred) for a in c.args):
+                    raise Undecided(f'call of local helper `{norm(c)[:50]}` is not a plain positional/keyword call')
+                m = dict(zip(ps, c.args))
+                m.update({k.arg: k.value for k in c.keywords})
+                if set(m) != set(ps):
+                    raise Undecided(f'call of local helper `{norm(c)[:50]}` relies on defaults')
+                return view.open_calls(_subst(body, m), at, depth + 1)
+        return T().visit(copy.deepcopy(e))
+
+    # ---- scalars ------------------------------------------------------------------------------------------
+    def scalar_env(self, e, at, bound=(), env=None, depth=0):
+        """name -> defining expression for the names of `e` that have exactly one reaching plain definition"""
+        env = {} if env is None else env
+        if depth > 12:
+            return env
+        for nm in sorted(names_in(e)):
+            if nm in env or nm in bound or self.is_param(at, nm):
+                continue
+            ds = self.defs(at, nm)
+            if len(ds) == 1 and isinstance(ds[0], ast.Assign) and len(ds[0].targets) == 1 \
+                    and isinstance(ds[0].targets[0], ast.Name):
+                v = self.open_calls(ds[0].value, ds[0])
+                env[nm] = v
+                self.scalar_env(v, ds[0], bound, env, depth + 1)
+        return env
+
+    def index(self, e, at, bound=()):
+        """`atom + offset` form of an index expression: (atom, offset); a constant is (None, offset)"""
+        if e is None:
+            return None
+        e = self.open_calls(e, at)
+        try:
+            r = normal_form(e, self.scalar_env(e, at, bound))
+        except AlgebraError as ex:
+            raise Undecided(f'index `{norm(e)[:50]}`: {ex}')
+        if list(r.den.keys()) != [()] or r.den[()] != 1:
+            raise Undecided(f'index `{norm(e)[:50]}` is not of the form name + constant')
+        atom, off = None, 0
+        for mono, c in r.num.items():
+            if mono == ():
+                if c.denominator != 1:
+                    raise Undecided(f'index `{norm(e)[:50]}` is not integral')
+                off = int(c)
+            elif len(mono) == 1 and mono[0][1] == 1 and c == 1 and atom is None:
+                atom = mono[0][0]
+            else:
+                raise Undecided(f'index `{norm(e)[:50]}` is not of the form name + constant')
+        return (atom, off)
+
+    def _slice_bounds(self, s, at, bound):
+        """(lo, hi) of a slicing subscript, or None when `s` is an element index"""
+        if isinstance(s, ast.Slice):
+            if s.step is not None and norm(s.step) != '1':
+                raise Undecided(f'strided slice `{norm(s)}`')
+            return self.index(s.lower, at, bound), self.index(s.upper, at, bound)
+        if isinstance(s, ast.Call) and call_name(s) == 'slice' and not s.keywords and 1 <= len(s.args) <= 3:
+            a = list(s.args)
+            if len(a) == 3 and norm(a[2]) not in ('None', '1'):
+                raise Undecided(f'strided slice `{norm(s)}`')
+            lo, hi = (None, a[0]) if len(a) == 1 else (a[0], a[1])
+            none = lambda x: x is None or (isinstance(x, ast.Constant) and x.value is None)
+            return (None if none(lo) else self.index(lo, at, bound)), (None if none(hi) else self.index(hi, at, bound))
+        if isinstance(s, ast.Name) and s.id not in bound and not self.is_param(at, s.id):
+            ds = self.defs(at, s.id)
+            if len(ds) == 1 and isinstance(ds[0], ast.Assign) and isinstance(ds[0].value, ast.Call) \
+                    and call_name(ds[0].value) == 'slice':
+                return self._slice_bounds(ds[0].value, ds[0], bound)
+        return None
+
+    # ---- sequences -------------------------------------------------------------------------------------------
+    def seq(self, e, at, bound=(), depth=0):
+        """alternatives (list of part lists) for the 1-D array expression `e` evaluated at statement `at`"""
+        if depth > 25:
+            raise Undecided('array expression nests too deeply')
+        rec = lambda x, a=at, b=bound: self.seq(x, a, b, depth + 1)
+        if isinstance(e, ast.Name):
+            if e.id in bound or self.is_param(at, e.id):
+                return [[('whole', e.id)]]
+            ds = self.defs(at, e.id)
+            if not ds:
+                raise Undecided(f'`{e.id}` has no definition reaching line {at.lineno}')
+            out = []
+            for d in ds:
+                if isinstance(d, (ast.For, ast.AsyncFor)) and isinstance(d.target, ast.Name) and d.target.id == e.id:
+                    out.append([('whole', e.id)])
+                elif isinstance(d, ast.Assign) and len(d.targets) == 1 and isinstance(d.targets[0], ast.Name):
+                    out += self.seq(d.value, d, (), depth + 1)
+                else:
+                    raise Undecided(f'`{e.id}` is bound or altered by `{norm(d)[:60]}` (line {d.lineno})')
+            return out
+        if isinstance(e, ast.IfExp):
+            arms = [x for x in (e.body, e.orelse) if not (isinstance(x, ast.Constant) and x.value is None)]
+            return [alt for x in arms for alt in rec(x)]
+        if isinstance(e, ast.Subscript):
+            if norm(e.value) in ('np.r_', 'numpy.r_'):
+                items = e.slice.elts if isinstance(e.slice, ast.Tuple) else [e.slice]
+                return self._join([self._seq_or_elem(x, at, bound, depth) for x in items])
+            b = self._slice_bounds(e.slice, at, bound)
+            if b is None:
+                raise Undecided(f'`{norm(e)[:50]}` is one element where an array is expected')
+            out = []
+            for alt in rec(e.value):
+                if len(alt) == 1 and alt[0][0] == 'whole':
+                    out.append([('slice', alt[0][1], b[0], b[1])])
+                else:
+                    raise Undecided(f'slice of a composed array `{norm(e)[:60]}`')
+            return out
+        if isinstance(e, (ast.List, ast.Tuple)):
+            return self._join([rec(x.value) if isinstance(x, ast.Starred) else [[('elem', x, at, bound)]] for x in e.elts])
+        if isinstance(e, ast.Call):
+            cb = self._callable(e.func, at) if isinstance(e.func, (ast.Name, ast.Lambda)) else None
+            if cb is not None:
+                return rec(self.open_calls(e, at))
+            n = _np_name(e)
+            if isinstance(e.func, ast.Attribute) and e.func.attr == 'copy' and not e.args:
+                return rec(e.func.value)
+            if n in _CONCAT and e.args and isinstance(e.args[0], (ast.Tuple, ast.List)):
+                ax = kwarg(e, 'axis') or (e.args[1] if len(e.args) > 1 else None)
+                if ax is not None and norm(ax) not in ('0', 'None', '-1'):
+                    raise Undecided(f'concatenation along axis {norm(ax)}')
+                if any(isinstance(x, ast.Starred) for x in e.args[0].elts):
+                    raise Undecided('concatenation of a starred sequence')
+                return self._join([rec(x) for x in e.args[0].elts])
+            if n == 'append' and len(e.args) == 2:
+                return self._join([rec(e.args[0]), self._seq_or_elem(e.args[1], at, bound, depth)])
+            if n in _ASARRAY and e.args:
+                a = e.args[0]
+                if isinstance(a, (ast.List, ast.Tuple)):
+                    return rec(a)
+                if n == 'atleast_1d':
+                    return self._seq_or_elem(a, at, bound, depth)
+                return rec(a)
+        raise Undecided(f'array expression `{norm(e)[:70]}` is not a slice / concatenation / one-element array')
+
+    def _seq_or_elem(self, x, at, bound, depth):
+        if isinstance(x, ast.Subscript) and self._slice_bounds(x.slice, at, bound) is None \
+                and norm(x.value) not in ('np.r_', 'numpy.r_'):
+            return [[('elem', x, at, bound)]]
+        try:
+            return self.seq(x, at, bound, depth + 1)
+        except Undecided:
+            return [[('elem', x, at, bound)]]
+
+    @staticmethod
+    def _join(groups):
+        out = [[]]
+        for g in groups:
+            out = [a + b for a in out for b in g]
+            if len(out) > 256:
+                raise Undecided('too many alternatives')
+        return [SeqView._merge(a) for a in out]
+
+    @staticmethod
+    def _merge(parts):
+        out = []
+        for p in parts:
+            if out and p[0] == 'slice' and out[-1][0] == 'slice' and out[-1][1] == p[1] and out[-1][3] is not None \
+                    and out[-1][3] == p[2]:
+                out[-1] = ('slice', p[1], out[-1][2], p[3])
+            else:
+                out.append(p)
+        return out
+
+    # ---- collections ---------------------------------------------------------------------------------------
+    def source(self, e, at):
+        """the tuple-of-arrays parameter that `e` iterates, unaltered"""
+        if isinstance(e, ast.Call) and call_name(e) in ('tuple', 'list', 'iter') and len(e.args) == 1 and not e.keywords:
+            return self.source(e.args[0], at)
+        if isinstance(e, ast.Name):
+            if self.is_param(at, e.id):
+                return e.id
+            ds = self.defs(at, e.id)
+            if len(ds) == 1 and isinstance(ds[0], ast.Assign) and len(ds[0].targets) == 1 \
+                    and isinstance(ds[0].targets[0], ast.Name):
+                return self.source(ds[0].value, ds[0])
+        raise Undecided(f'`{norm(e)[:50]}` is not one of the tuple-of-arrays parameters as received')
+
+    def coll(self, e, at, depth=0):
+        """alternatives for a tuple/list with one array per member of a tuple-of-arrays parameter"""
+        if depth > 12:
+            raise Undecided('collection expression nests too deeply')
+        if isinstance(e, ast.Name):
+            if self.is_param(at, e.id):
+                return [('pervar', e.id, '_member', ast.Name(id='_member', ctx=ast.Load()), at, ('_member',))]
+            ds = self.defs(at, e.id)
+            if not ds:
+                raise Undecided(f'`{e.id}` has no definition reaching line {at.lineno}')
+            self._members_untouched(e.id)
+            plain = [d for d in ds if isinstance(d, ast.Assign) and len(d.targets) == 1
+                     and isinstance(d.targets[0], ast.Name) and d.targets[0].id == e.id]
+            if len(plain) == len(ds):
+                return [alt for d in ds for alt in self.coll(d.value, d, depth + 1)]
+            return self._accumulated(e.id, at, ds, plain)
+        if isinstance(e, (ast.Tuple, ast.List)) and not e.elts:
+            return [('empty',)]
+        if isinstance(e, ast.IfExp):
+            return self.coll(e.body, at, depth + 1) + self.coll(e.orelse, at, depth + 1)
+        if isinstance(e, (ast.GeneratorExp, ast.ListComp)):
+            if len(e.generators) != 1 or e.generators[0].ifs or e.generators[0].is_async \
+                    or not isinstance(e.generators[0].target, ast.Name):
+                raise Undecided(f'comprehension `{norm(e)[:60]}` filters, nests or unpacks')
+            g = e.generators[0]
+            return [('pervar', self.source(g.iter, at), g.target.id, e.elt, at, (g.target.id,))]
+        if isinstance(e, ast.Call):
+            n = call_name(e)
+            if n in ('tuple', 'list') and not e.keywords:
+                if not e.args:
+                    return [('empty',)]
+                if len(e.args) == 1:
+                    return self.coll(e.args[0], at, depth + 1)
+            if n == 'map' and len(e.args) == 2 and not e.keywords:
+                cb = self._callable(e.args[0], at) if isinstance(e.args[0], (ast.Name, ast.Lambda)) else None
+                if cb is not None and len(cb[0]) == 1:
+                    return [('pervar', self.source(e.args[1], at), cb[0][0], cb[1], at, (cb[0][0],))]
+        raise Undecided(f'`{norm(e)[:70]}` is not a per-variable tuple (comprehension, map, or loop that appends)')
+
+    def _members_untouched(self, name):
+        """the arrays held by the local collection `name` are not altered in place through a loop variable / alias"""
+        for lp in walk_no_nested(self.fn):
+            if isinstance(lp, (ast.For, ast.AsyncFor)) and name in names_in(lp.iter):
+                tg = set(assigned_names(lp.target))
+                for x in walk_no_nested(lp):
+                    hit = None
+                    if isinstance(x, (ast.Assign, ast.AugAssign, ast.AnnAssign, ast.Delete)):
+                        ts = x.targets if isinstance(x, (ast.Assign, ast.Delete)) else [x.target]
+                        for t in ts:
+                            for el in _flat(t):
+                                if (not isinstance(el, ast.Name) or isinstance(x, ast.AugAssign)) and _root_name(el) in tg:
+                                    hit = x
+                    if isinstance(x, ast.Call) and isinstance(x.func, ast.Attribute) and _root_name(x.func.value) in tg \
+                            and (x.func.attr in MUTATING_METHODS or x.func.attr in ('fill', 'put', 'resize', 'itemset')):
+                        hit = x
+                    if isinstance(x, ast.Call) and any(k.arg == 'out' and _root_name(k.value) in tg for k in x.keywords):
+                        hit = x
+                    if hit is not None:
+                        raise Undecided(f'the arrays in `{name}` are altered in place after they are built '
+                                        f'(`{norm(hit)[:60]}`, line {hit.lineno})')
+            if isinstance(lp, ast.Assign) and isinstance(lp.value, ast.Name) and lp.value.id == name:
+                raise Undecided(f'`{name}` is aliased (`{norm(lp)[:50]}`)')
+
+    def _accumulated(self, name, at, ds, plain):
+        """`name = []` followed by one loop over a tuple-of-arrays parameter that appends once per iteration"""
+        if len(plain) != 1:
+            raise Undecided(f'`{name}` is re-bound and appended to on different paths')
+        init = plain[0].value
+        empty = (isinstance(init, (ast.List, ast.Tuple)) and not init.elts) or \
+            (isinstance(init, ast.Call) and call_name(init) in ('list', 'tuple') and not init.args)
+        if not empty:
+            raise Undecided(f'`{name}` does not start empty (`{norm(init)[:40]}`)')
+        muts = [d for d in ds if d is not plain[0]]
+        loops = []
+        for mstmt in muts:
+            lp = next((a for a in ancestors(mstmt) if isinstance(a, (ast.For, ast.AsyncFor, ast.While))), None)
+            if lp is None or not isinstance(lp, ast.For) or not is_within(lp, self.fn):
+                raise Undecided(f'`{name}` is altered outside a for-loop (`{norm(mstmt)[:50]}`)')
+            if not any(lp is x for x in loops):
+                loops.append(lp)
+        if len(loops) != 1:
+            raise Undecided(f'`{name}` is filled by {len(loops)} loops')
+        lp = loops[0]
+        if not isinstance(lp.target, ast.Name) or lp.orelse:
+            raise Undecided(f'loop `for {norm(lp.target)} in …` unpacks its target or has an else')
+        src = self.source(lp.iter, lp)
+        for x in walk_no_nested(lp):
+            if isinstance(x, (ast.Break, ast.Continue, ast.Return, ast.Raise, ast.Try, ast.While)) or \
+                    (isinstance(x, ast.For) and x is not lp):
+                raise Undecided(f'loop over `{src}` leaves or nests (`{norm(x)[:40]}`)')
+        head = next(i for i in self.cfg.nodes_of(lp) if self.cfg.nodes[i].kind == 'iter')
+        if not all(head in self.dom.get(n, ()) for n in self._node_of(at)) or \
+                not all(any(i in self.dom.get(head, ()) for i in self.cfg.nodes_of(plain[0])) for _ in (0,)):
+            raise Undecided(f'the loop filling `{name}` is not passed on every path to line {at.lineno}')
+
+        def added(st):
+            """element expression appended to `name` by statement st, else None"""
+            if isinstance(st, ast.Expr) and isinstance(st.value, ast.Call) and isinstance(st.value.func, ast.Attribute) \
+                    and norm(st.value.func.value) == name:
+                c = st.value
+                if c.func.attr == 'append' and len(c.args) == 1 and not c.keywords:
+                    return c.args[0]
+                if c.func.attr == 'extend' and len(c.args) == 1 and isinstance(c.args[0], (ast.List, ast.Tuple)) \
+                        and len(c.args[0].elts) == 1 and not isinstance(c.args[0].elts[0], ast.Starred):
+                    return c.args[0].elts[0]
+            if isinstance(st, ast.AugAssign) and isinstance(st.op, ast.Add) and norm(st.target) == name \
+                    and isinstance(st.value, (ast.List, ast.Tuple)) and len(st.value.elts) == 1 \
+                    and not isinstance(st.value.elts[0], ast.Starred):
+                return st.value.elts[0]
+            return None
+
+        def paths(body):
+            """per path through `body`: the list of (element, statement) appended"""
+            out = [[]]
+            for st in body:
+                if any(st is mm for mm in muts):
+                    el = added(st)
+                    if el is None:
+                        raise Undecided(f'`{norm(st)[:60]}` does not add exactly one element to `{name}`')
+                    out = [p + [(el, st)] for p in out]
+                elif isinstance(st, ast.If) and any(is_within(mm, st) for mm in muts):
+                    out = [p + q for p in out for q in paths(st.body) + paths(st.orelse)]
+                elif any(is_within(mm, st) for mm in muts):
+                    raise Undecided(f'`{name}` is altered inside `{norm(st)[:40]}`')
+            return out
+        alts = []
+        for p in paths(lp.body):
+            if len(p) != 1:
+                raise Undecided(f'a pass of the loop over `{src}` adds {len(p)} elements to `{name}` (expected one per variable)')
+            alts.append(('pervar', src, lp.target.id, p[0][0], p[0][1], ()))
+        return alts
+
+
+# ---- analysis of one inserted element ----------------------------------------------------------------------------
+_ELEM = 'ELEM__'
+_KEEP = {'np', 'numpy', 'math', 'self'}
+
+
+def _ph(atom, off):
+    return f'{_ELEM}{re.sub(r"[^0-9A-Za-z]", "_", atom or "")}__{"m" if off < 0 else "p"}{abs(off)}'
+
+
+def closed(view, e, at, bound=()):
+    """copy of `e` with local helper calls opened and singly-defined locals substituted as far as they go"""
+    e = view.open_calls(e, at)
+    env = view.scalar_env(e, at, bound)
+    for _ in range(12):
+        if not (names_in(e) & set(env)):
+            break
+        e = _subst(e, env)
+    return e
+
+
+def _rename(e, prefix):
+    e = copy.deepcopy(e)
+    for x in ast.walk(e):
+        if isinstance(x, ast.Name) and x.id not in _KEEP:
+            x.id = prefix + x.id
+    return e
+
+
+def elem_form(view, part, base):
+    """An inserted element as a rational function of the elements `base[k + off]` it is computed from:
+    (normal form, {placeholder: (atom, off)}, expression with placeholders, closed expression)."""
+    _, x, at, bound = part
+    e = closed(view, x, at, bound)
+    marks = {}
+
+    class T(ast.NodeTransformer):
+        def visit_Subscript(self, n):
+            if isinstance(n.value, ast.Name) and n.value.id == base and view._slice_bounds(n.slice, at, bound) is None:
+                a, off = view.index(n.slice, at, bound)
+                marks[_ph(a, off)] = (a, off)
+                return ast.copy_location(ast.Name(id=_ph(a, off), ctx=ast.Load()), n)
+            self.generic_visit(n)
+            return n
+    shown = norm(e)
+    e2 = T().visit(e)
+    try:
+        r = normal_form(e2, {})
+    except AlgebraError as ex:
+        raise Undecided(f'inserted element `{shown[:60]}`: {ex}')
+    return r, marks, e2, shown
+
+
+def is_multiple_of(r, ph, base):
+    """r ≡ ph · f where f mentions neither ph nor any other element of `base`"""
+    if not r.num or any(a == ph for mono in r.den for a, _ in mono):
+        return False
+    if not all(dict(mono).get(ph) == 1 for mono in r.num):
+        return False
+    return not any(a != ph and (_ELEM in a or re.search(rf'\b{re.escape(base)}\b', a)) for a in r.atoms())
+
+
+def _ix(i):
+    if i is None:
+        return ''
+    a, off = i
+    return (a or '') + (f' {"+" if off > 0 else "-"} {abs(off)}' if off and a else (str(off) if not a else ''))
+
+
+def show_parts(parts):
+    out = []
+    for p in parts:
+        if p[0] == 'slice':
+            out.append(f'{p[1]}[{_ix(p[2])}:{_ix(p[3])}]')
+        elif p[0] == 'whole':
+            out.append(p[1])
+        else:
+            out.append(f'[{norm(p[1])[:48]}]')
+    return ' ++ '.join(out) if out else '(nothing)'
+
+
+def ret_elts(view, r):
+    """components of the tuple returned by `r`: [(expr, statement it is evaluated at)]"""
+    v, at = r.value, r
+    for _ in range(4):
+        if isinstance(v, ast.Name) and not view.is_param(at, v.id):
+            ds = view.defs(at, v.id)
+            if len(ds) == 1 and isinstance(ds[0], ast.Assign) and len(ds[0].targets) == 1 and isinstance(ds[0].targets[0], ast.Name):
+                v, at = ds[0].value, ds[0]
+                continue
+        break
+    if not isinstance(v, ast.Tuple):
+        raise Undecided(f'return at line {r.lineno} does not return a tuple of parts')
+    return [(x, at) for x in v.elts]
+
+
+def index_param(view, seqs):
+    """the one parameter that every slice bound / element index of these sequences is an offset of"""
+    atoms = set()
+    for parts, base in seqs:
+        for p in parts:
+            if p[0] == 'slice':
+                atoms |= {i[0] for i in p[2:4] if i is not None and i[0] is not None}
+            elif p[0] == 'elem':
+                _, marks, _, _ = elem_form(view, p, base)
+                atoms |= {a for a, _ in marks.values() if a is not None}
+    return atoms
+
+
+def guarded_empty(r, name):
+    """return statement r is only reached when the tuple parameter `name` is empty"""
+    for test, pol, _ in guards_of(r):
+        for e, p in conjuncts(test, pol):
+            if isinstance(e, ast.Name) and e.id == name and not p:
+                return True
+            if isinstance(e, ast.Call) and call_name(e) == 'len' and e.args and norm(e.args[0]) == name and not p:
+                return True
+            if isinstance(e, ast.Compare) and len(e.ops) == 1 and norm(e.left) == f'len({name})' and norm(e.comparators[0]) == '0':
+                if (isinstance(e.ops[0], ast.Eq) and p) or (isinstance(e.ops[0], (ast.NotEq, ast.Gt)) and not p):
+                    return True
+    return False
+
+
+SPLITS = (('first', 'Gridder._dateline_split_first_segment'), ('second', 'Gridder._dateline_split_second_segment'))
+IV = 'integrated_variables'
+
+
+def split_call(ctx, rule, gc, fn):
+    prog = ctx.prog
+    call = next((c for c in calls_in(gc.node) if resolve_call(prog, gc, c) == fn), None)
+    if call is None:
+        ctx.undecided(rule, gc, fn.qualname, 'split call not found')
+    if any(isinstance(a, ast.Starred) for a in call.args) or any(k.arg is None for k in call.keywords):
+        ctx.undecided(rule, gc, fn.qualname, 'split call uses * / ** arguments')
+    params = [p for p in fn.params if p not in ('self', 'cls')]
+    binding = dict(zip(params, call.args))
+    binding.update({k.arg: k.value for k in call.keywords})
+    return call, binding
+
+
 def rule_split_sum(ctx, m):
+    try:
+        _rule_split_sum(ctx, m)
+    except Undecided as e:
+        ctx.undecided('C04-R1', (GRID, 'Gridder._dateline_split_*'), 'antimeridian split', str(e))
+
+
+def _rule_split_sum(ctx, m):
     prog = ctx.prog
     cs = m.func('Gridder._calculate_segment_lengths')
-    rets = [n for n in walk_no_nested(cs.node) if isinstance(n, ast.Return)]
-    if len(rets) != 1 or not isinstance(rets[0].value, ast.Tuple) or len(rets[0].value.elts) != 3:
-        ctx.undecided('C04-R1', cs, 'return', 'expected a 3-tuple (first, second, total)')
-    a, b, t = rets[0].value.elts
-    env = {}
-    for name in ('total_segment_length',):
-        d = single_def_value(cs.node, name)
-        if d is not None:
-            env[name] = d
-    try:
-        ok = poly_equal(normal_form(t, env), normal_form(a, {}) + normal_form(b, {}))
-    except AlgebraError as e:
-        ctx.undecided('C04-R1', cs, norm(t), str(e))
-    ctx.ob('C04-R1', cs, f'returned total ≡ {norm(a)} + {norm(b)}', ok,
-           'the third returned length is the sum of the first two' if ok else
-           'the total length used as denominator is not the sum of the two part lengths', line=rets[0].lineno)
-    # caller: unpack order and arguments to the two split functions
     gc = m.func('Gridder._grid_trajectory_with_dateline_crossing')
+    csv, gcv = SeqView(cs), SeqView(gc)
+    # ---- the two lengths: from element k to the antimeridian (A) and from there to element k+1 (B) -----------------
+    rets = csv.returns()
+    if len(rets) != 1:
+        ctx.undecided('C04-R1', cs, 'return', f'{len(rets)} return statements')
+    lens = [closed(csv, x, at) for x, at in ret_elts(csv, rets[0])]
+    side = {}
+    kcs = set()
+    for j, e in enumerate(lens):
+        offs = set()
+        for x in ast.walk(e):
+            if isinstance(x, ast.Subscript) and csv._slice_bounds(x.slice, rets[0], ()) is None:
+                a, off = csv.index(x.slice, rets[0])
+                offs.add(off)
+                kcs.add(a)
+        try:
+            r = normal_form(e, {})
+        except AlgebraError as ex:
+            ctx.undecided('C04-R1', cs, norm(e)[:60], str(ex))
+        prim = len(r.num) == 1 and list(r.den.keys()) == [()] and all(len(mo) == 1 and mo[0][1] == 1 and c == 1 for mo, c in r.num.items())
+        if prim and offs == {0}:
+            side.setdefault('first', []).append(j)
+        elif prim and 1 in offs:
+            side.setdefault('second', []).append(j)
+    ok = all(len(side.get(s, [])) == 1 for s in ('first', 'second')) and len(kcs) == 1
+    ctx.ob('C04-R1', cs, 'one length measured from element k to the antimeridian, one from there to element k+1', ok,
+           f'returned components {side.get("first")} and {side.get("second")}' if ok else
+           'the two part lengths of the crossing segment are not both returned as measured lengths', line=rets[0].lineno)
+    if not ok:
+        return
+    kcs = kcs.pop()
+    A = _rename(lens[side['first'][0]], 'cs__')
+    B = _rename(lens[side['second'][0]], 'cs__')
+    total = ast.BinOp(left=A, op=ast.Add(), right=B)
+    want = {'first': ast.BinOp(left=A, op=ast.Div(), right=total), 'second': ast.BinOp(left=B, op=ast.Div(), right=total)}
+    # ---- caller: the returned lengths under the names they are unpacked to ------------------------------------
     unpack = None
     for t_, st, how in stores_to(gc.node):
-        if isinstance(st, ast.Assign) and isinstance(st.value, ast.Call) and \
-                call_name(st.value) == 'self._calculate_segment_lengths' and isinstance(st.targets[0], ast.Tuple):
-            unpack = [norm(e) for e in st.targets[0].elts]
-    if unpack is None or len(unpack) != 3:
-        ctx.undecided('C04-R1', gc, '_calculate_segment_lengths', 'result is not unpacked into three names')
-    la, lb, lt = unpack
-    factors = {}
-    for part, qn in (('first', 'Gridder._dateline_split_first_segment'), ('second', 'Gridder._dateline_split_second_segment')):
+        if isinstance(st, ast.Assign) and isinstance(st.value, ast.Call) and resolve_call(prog, gc, st.value) == cs:
+            unpack = st
+    if unpack is None or not isinstance(unpack.targets[0], ast.Tuple) or len(unpack.targets[0].elts) != len(lens) \
+            or not all(isinstance(x, ast.Name) for x in unpack.targets[0].elts):
+        ctx.undecided('C04-R1', gc, '_calculate_segment_lengths', 'result is not unpacked into one name per returned length')
+    genv = {'caller__' + x.id: _rename(e, 'cs__') for x, e in zip(unpack.targets[0].elts, lens)}
+    cs_params = [p for p in cs.params if p not in ('self', 'cls')]
+    cs_bind = dict(zip(cs_params, unpack.value.args))
+    cs_bind.update({k.arg: k.value for k in unpack.value.keywords if k.arg})
+    kbind = {'lengths': norm(closed(gcv, cs_bind[kcs], unpack)) if kcs in cs_bind else None}
+
+    shares = {}
+    nshare = 0
+    for part, qn in SPLITS:
         fn = m.func(qn)
-        call = next((c for c in calls_in(gc.node) if resolve_call(prog, gc, c) == fn), None)
-        if call is None:
-            ctx.undecided('C04-R1', gc, qn, 'split call not found')
-        params = fn.params[1:]
-        binding = {p: norm(a_) for p, a_ in zip(params, call.args)}
-        # the scaled element inside the split function
-        scaled = None
-        gen_var = None
-        for x in ast.walk(fn.node):
-            if isinstance(x, ast.BinOp) and isinstance(x.op, ast.Div) and isinstance(x.left, ast.BinOp) \
-                    and isinstance(x.left.op, ast.Mult) and isinstance(x.left.left, ast.Subscript):
-                scaled = x
-        if scaled is None:
-            ctx.undecided('C04-R1', fn, 'scaled element', 'no `var[i] * length / total` expression found')
-        elem = scaled.left.left
-        num_name, den_name = norm(scaled.left.right), norm(scaled.right)
-        ok_idx = norm(elem.slice) == 'dateline_crossing_idx'
-        num_bound, den_bound = binding.get(num_name), binding.get(den_name)
-        factors[part] = (num_bound, den_bound)
-        want_num = la if part == 'first' else lb
-        ok = ok_idx and num_bound == want_num and den_bound == lt
-        ctx.ob('C04-R1', fn, f'{part} part scales element [{norm(elem.slice)}] by {num_bound}/{den_bound}', ok,
-               f'share of the {part} part = its own length over the total' if ok else
-               (f'the {part} part of the crossing segment is scaled by `{num_bound}`/`{den_bound}` '
-                f'(expected `{want_num}`/`{lt}`): the two shares no longer add up to the segment value'),
-               line=scaled.lineno)
-        # disjoint slices
-        comp = next((g for g in ast.walk(fn.node) if isinstance(g, ast.GeneratorExp) and any(
-            scaled is y for y in ast.walk(g))), None)
-        sl = [norm(s.slice) for s in ast.walk(comp) if isinstance(s, ast.Subscript) and isinstance(s.slice, ast.Slice)] if comp else []
-        want = [':dateline_crossing_idx'] if part == 'first' else ['dateline_crossing_idx + 1:']
-        ok = sl == want
-        ctx.ob('C04-R1', fn, f'{part} part keeps unsplit elements {sl}', ok,
-               'all elements before (after) the crossing one, the crossing one only as its share' if ok else
-               'the unsplit elements overlap with or miss the crossing element: quantity is duplicated or lost',
-               line=(comp.lineno if comp else fn.node.lineno))
-    if factors.get('first') and factors.get('second'):
-        try:
-            s = Rat({((factors['first'][0], 1),): 1}) / Rat({((factors['first'][1], 1),): 1}) + \
-                Rat({((factors['second'][0], 1),): 1}) / Rat({((factors['second'][1], 1),): 1})
-            # substitute t = a + b
-            from fractions import Fraction
-            env2 = {lt: ast.parse(f'{la} + {lb}', mode='eval').body}
-            expr = ast.parse(f"{factors['first'][0]} / {factors['first'][1]} + {factors['second'][0]} / {factors['second'][1]}", mode='eval').body
-            tot = normal_form(expr, env2)
-            ok = poly_equal(tot, normal_form(ast.Constant(1), {}))
-        except Exception as e:
-            ctx.undecided('C04-R1', gc, 'sum of shares', str(e))
-        ctx.ob('C04-R1', gc, f'{factors["first"][0]}/{factors["first"][1]} + {factors["second"][0]}/{factors["second"][1]} ≡ 1', ok,
-               f'with {lt} ≡ {la} + {lb} the two shares sum to one identically' if ok else
-               f'the two shares sum to {tot}, not 1', line=gc.node.lineno)
+        view = SeqView(fn)
+        call, binding = split_call(ctx, 'C04-R1', gc, fn)
+        if IV not in binding:
+            ctx.undecided('C04-R1', fn, IV, 'the split function has no such parameter')
+        env = dict(genv)
+        for p, a_ in binding.items():
+            env[p] = _rename(closed(gcv, a_, stmt_of(call)), 'caller__')
+        returns = view.returns()
+        evaluated = []
+        for r in returns:
+            row = []
+            for x, at in ret_elts(view, r):
+                try:
+                    row.append(view.coll(x, at))
+                except Undecided as e:
+                    row.append(e)
+            evaluated.append(row)
+        pos = {j for row in evaluated for j, alts in enumerate(row) if isinstance(alts, list)
+               and any(a[0] == 'pervar' and a[1] == IV for a in alts)}
+        if len(pos) != 1:
+            why = '; '.join(sorted({str(a) for row in evaluated for a in row if isinstance(a, Undecided) and IV in str(a) + ' '.join(
+                norm(d) for d in ())}))
+            ctx.undecided('C04-R1', fn, 'returned parts', f'{len(pos)} returned components are recognised as built from {IV}'
+                          + (f' ({why[:300]})' if why else ''))
+        pos = pos.pop()
+        shares[part] = []
+        for ri, (r, row) in enumerate(zip(returns, evaluated)):
+            tag = f'{part} part, return #{ri + 1}'
+            if pos >= len(row):
+                ctx.undecided('C04-R1', fn, tag, 'returns fewer parts')
+            if isinstance(row[pos], Undecided):
+                ctx.undecided('C04-R1', fn, tag, str(row[pos]))
+            for alt in row[pos]:
+                if alt[0] == 'empty':
+                    if not guarded_empty(r, IV):
+                        ctx.undecided('C04-R1', fn, tag, f'returns no integrated arrays on a path where {IV} is not known to be empty')
+                    continue
+                _, src, var, expr, at, bound = alt
+                if src != IV:
+                    ctx.ob('C04-R1', fn, f'{tag}: integrated part built from {src}', False,
+                           f'the integrated part of the split is computed from `{src}`, not from `{IV}`', line=r.lineno)
+                    continue
+                for parts in view.seq(expr, at, bound):
+                    nshare += _check_share(ctx, fn, view, part, tag, r, var, parts, env, want[part], shares[part], kbind)
+    ctx.floor('C04-R1', nshare, 2, 'return paths of the two split functions examined for the crossing-segment share')
+    # ---- the two parts are cut at the same element the lengths were measured at ---------------------------------------
+    ok = len({v for v in kbind.values()}) == 1 and None not in kbind.values()
+    ctx.ob('C04-R1', gc, f'lengths and both parts use crossing element {sorted(set(map(str, kbind.values())))}', ok,
+           'one crossing index' if ok else 'the lengths are measured at a different element than the one that is split', nontrivial=False)
+    # ---- over every pair of paths the two shares add up to one -----------------------------------------------------
+    for d1, s1 in shares['first']:
+        for d2, s2 in shares['second']:
+            ok = poly_equal(s1 + s2, normal_form(ast.Constant(1), {}))
+            ctx.ob('C04-R1', gc, f'{d1} + {d2} ≡ 1', ok,
+                   'with the lengths as returned by _calculate_segment_lengths the two shares sum to one identically' if ok else
+                   'the two shares of the crossing segment sum to ' + re.sub(r'\b(caller|cs)__', '', str(s1 + s2))[:160] + ', not 1', line=gc.node.lineno)
+
+
+def _check_share(ctx, fn, view, part, tag, r, var, parts, env, want, shares, kbind):
+    """one return path of one split function: [kept elements] + [crossing element × share], each exactly once"""
+    desc = show_parts(parts)
+    elems = [p for p in parts if p[0] == 'elem']
+    katoms = index_param(view, [(parts, var)])
+    if len(katoms) != 1 or not katoms <= set(fn.params):
+        ctx.undecided('C04-R1', fn, tag, f'`{desc}` is not cut at one index parameter ({sorted(map(str, katoms))})')
+    k = next(iter(katoms))
+    call_arg = env.get(k)
+    kbind[part] = norm(call_arg).replace('caller__', '') if call_arg is not None else None
+    # (a) the share term is there, once
+    if len(elems) != 1:
+        ctx.ob('C04-R1', fn, f'{tag}: crossing share included once in {desc}', False,
+               (f'on the path that returns at line {r.lineno} the {part} part is `{desc}`: the crossing segment\'s share for this '
+                'part (value × part length / total length) is not added — the other part still receives only its own share, '
+                'so the quantity is lost') if not elems else
+               f'the {part} part `{desc}` contains {len(elems)} inserted elements: the crossing segment is counted more than once',
+               line=r.lineno)
+        return 1
+    f, marks, e2, shown = elem_form(view, elems[0], var)
+    ph = _ph(k, 0)
+    ok = ph in marks and is_multiple_of(f, ph, var)
+    ctx.ob('C04-R1', fn, f'{tag}: inserted element is {var}[{k}] × share', ok,
+           f'`{shown[:70]}`' if ok else
+           f'the inserted element `{shown[:70]}` is not the crossing element {var}[{k}] times a share', line=r.lineno)
+    # (b) the kept elements are exactly those on this side of the crossing element
+    rest = [p for p in parts if p[0] != 'elem']
+    zero = (None, (None, 0))
+    if part == 'first':
+        okk = len(rest) == 1 and rest[0][0] == 'slice' and rest[0][1] == var and rest[0][2] in zero and rest[0][3] == (k, 0) \
+            and parts[-1][0] == 'elem'
+    else:
+        okk = len(rest) == 1 and rest[0][0] == 'slice' and rest[0][1] == var and rest[0][2] == (k, 1) and rest[0][3] is None \
+            and parts[0][0] == 'elem'
+    ctx.ob('C04-R1', fn, f'{tag}: keeps unsplit elements {show_parts(rest)}', okk,
+           'all elements before (after) the crossing one, the crossing one only as its share' if okk else
+           f'`{desc}`: the unsplit elements overlap with or miss the crossing element {var}[{k}]: quantity is duplicated or lost',
+           line=r.lineno)
+    if not ok:
+        return 1
+    # (c) the share is this part's own length over the sum of both
+    env2 = dict(env)
+    env2[ph] = ast.Constant(1)
+    try:
+        share = normal_form(e2, env2)
+        wanted = normal_form(want, {})
+    except AlgebraError as ex:
+        raise Undecided(f'share `{shown[:60]}`: {ex}')
+    oks = poly_equal(share, wanted)
+    txt = norm(_subst(_subst(e2, {ph: ast.Name(id='ONE__', ctx=ast.Load())}), {p: v for p, v in env.items() if not p.startswith('caller__')}))
+    txt = re.sub(r'\b(caller|cs)__', '', txt.replace('ONE__ * ', '').replace(' * ONE__', '').replace('ONE__', '1'))
+    ctx.ob('C04-R1', fn, f'{tag}: share = {txt[:80]}', oks,
+           f'share of the {part} part = its own length over the sum of both lengths' if oks else
+           (f'the {part} part of the crossing segment is scaled by `{txt[:80]}`, which is not the {part} length over the '
+            'sum of both lengths: the two shares no longer add up to the segment value'), line=r.lineno)
+    shares.append((f'{part}#{tag[-1]} {txt[:60]}', share))
+    return 1
 
 
 def rule_share(ctx, m):
